@@ -45,8 +45,8 @@ Qed.
 Lemma Q2R_1 : Q2R 1 = 1.   Proof. unfold Q2R; simpl; field. Qed.
 Lemma Q2R_2 : Q2R 2 = 2.   Proof. unfold Q2R; simpl; field. Qed.
 Lemma Q2R_HOUR : Q2R HOUR = 3600.   Proof. unfold Q2R, HOUR; simpl; field. Qed.
-Lemma evalR_LN2 : forall env, evalR env LN2 = ln 2.
-Proof. intro. unfold LN2. cbn [evalR]. rewrite Q2R_2. reflexivity. Qed.
+Lemma evalR_LN2 : evalR ln2_env_R LN2 = ln 2.
+Proof. reflexivity. Qed.
 
 Ltac ev := unfold b_code, b_spec, b_scale, n2_code, n2_spec, n2_term, main_code, small_code, act_spec, act_d, act_V,
              expm1, eexp_neg, c in *; cbn [evalR] in *; rewrite ?Q2R_1, ?Q2R_2, ?Q2R_HOUR in *.
@@ -150,7 +150,7 @@ Proof.
   intro E. apply H. unfold Qeq in E. simpl in E. lia.
 Qed.
 
-Lemma lam_is : forall env T, evalR env (LN2 /: c T) = decay_const (Q2R T).
+Lemma lam_is : forall T, evalR ln2_env_R (LN2 /: c T) = decay_const (Q2R T).
 Proof. intros. unfold decay_const. cbn [evalR]. rewrite evalR_LN2. reflexivity. Qed.
 
 Lemma decay_const_neq0 : forall T, T <> 0 -> decay_const T <> 0.
@@ -180,10 +180,10 @@ Ltac split_row H :=
    Spec/Activation.v for the row's cross sections and half-lives, and [lam] is ln 2 / T *)
 Theorem model_spec_is_chain_solution : forall sb r amass mass env t br a m lam spec,
   activity_row_with sb r amass mass env t = OAct br a m lam spec ->
-  evalR no_env_R spec =
+  evalR ln2_env_R spec =
     activity_end (chain_of br) (Q2R mass) (IZR amass) (Q2R (row_flux r env)) (Q2R (fluence env))
                  (Q2R (row_xs r env)) (Q2R (row_xs2 r env)) (Q2R (r_thalf r)) (Q2R (r_thalf_par r)) (Q2R t)
-  /\ evalR no_env_R lam = decay_const (Q2R (r_thalf r)).
+  /\ evalR ln2_env_R lam = decay_const (Q2R (r_thalf r)).
 Proof.
   intros until spec. intro H. split_row H; injection H as <- <- <- <- <-; (split; [|apply lam_is]);
     assert (HA : amass <> 0%Z) by (apply Z.eqb_neq; assumption);
@@ -192,13 +192,13 @@ Proof.
   - (* b *)
     assert (HTp : Q2R (r_thalf_par r) <> 0) by (rewrite <- Q2R_0; apply Qeq_bool_false_R; assumption).
     assert (HTT : Q2R (r_thalf_par r) <> Q2R (r_thalf r)) by (apply Qeq_bool_false_R; assumption).
-    rewrite (b_spec_solution no_env_R _ _ _ _ (atoms (Q2R mass) (IZR amass) * rate (Q2R (row_flux r env)) (Q2R (row_xs r env)))).
+    rewrite (b_spec_solution ln2_env_R _ _ _ _ (atoms (Q2R mass) (IZR amass) * rate (Q2R (row_flux r env)) (Q2R (row_xs r env)))).
     + rewrite !lam_is. reflexivity.
     + cbn [evalR c]. apply root_is; assumption.
     + rewrite lam_is. apply decay_const_neq0; assumption.
     + rewrite !lam_is. intro E. apply HTT. apply decay_const_inj; assumption.
   - (* 2n *)
-    rewrite (n2_spec_solution no_env_R _ _ _ _ _ _ (atoms (Q2R mass) (IZR amass))).
+    rewrite (n2_spec_solution ln2_env_R _ _ _ _ _ _ (atoms (Q2R mass) (IZR amass))).
     + rewrite !lam_is. cbn [evalR c]. rewrite k1_is', k2c_is. reflexivity.
     + cbn [evalR c]. rewrite k1_is'. rewrite root_is by assumption. unfold Rdiv. ring.
   - rewrite act_spec_solution. rewrite lam_is. cbn [evalR c]. rewrite !k1_is, atoms_is by assumption. reflexivity.
@@ -220,7 +220,7 @@ Theorem model_refines_spec : forall sb r amass mass env t br a m lam spec,
   br <> BSmall ->
   (br = BMain -> decay_const (Q2R (r_thalf r)) - rate (Q2R (row_flux r env)) (Q2R (row_xs r env))
                  + rate (Q2R (fluence env)) (Q2R (row_xs2 r env)) <> 0) ->
-  evalR no_env_R a = evalR no_env_R spec.
+  evalR ln2_env_R a = evalR ln2_env_R spec.
 Proof.
   intros until spec. intros H Hns Hd. split_row H; injection H as <- <- <- <- <-; try (exfalso; apply Hns; reflexivity);
     assert (HA : amass <> 0%Z) by (apply Z.eqb_neq; assumption);
@@ -247,7 +247,7 @@ Corollary model_activity_is_chain_solution : forall sb r amass mass env t br a m
   br <> BSmall ->
   (br = BMain -> decay_const (Q2R (r_thalf r)) - rate (Q2R (row_flux r env)) (Q2R (row_xs r env))
                  + rate (Q2R (fluence env)) (Q2R (row_xs2 r env)) <> 0) ->
-  evalR no_env_R a =
+  evalR ln2_env_R a =
     activity_end (chain_of br) (Q2R mass) (IZR amass) (Q2R (row_flux r env)) (Q2R (fluence env))
                  (Q2R (row_xs r env)) (Q2R (row_xs2 r env)) (Q2R (r_thalf r)) (Q2R (r_thalf_par r)) (Q2R t).
 Proof.
@@ -270,7 +270,7 @@ Theorem model_refines_spec_repaired : forall r amass mass env t br a m lam spec,
   activity_row_with false r amass mass env t = OAct br a m lam spec ->
   (br = BMain -> decay_const (Q2R (r_thalf r)) - rate (Q2R (row_flux r env)) (Q2R (row_xs r env))
                  + rate (Q2R (fluence env)) (Q2R (row_xs2 r env)) <> 0) ->
-  evalR no_env_R a =
+  evalR ln2_env_R a =
     activity_end (chain_of br) (Q2R mass) (IZR amass) (Q2R (row_flux r env)) (Q2R (fluence env))
                  (Q2R (row_xs r env)) (Q2R (row_xs2 r env)) (Q2R (r_thalf r)) (Q2R (r_thalf_par r)) (Q2R t).
 Proof.
@@ -279,14 +279,14 @@ Proof.
 Qed.
 
 (* rest decay of the model: exp(-lam t) with lam = ln 2 / T is 2^(-t/T) *)
-Theorem model_rest_decay_exact : forall a lam T ti, evalR no_env_R lam = decay_const T ->
-  evalR no_env_R (rest_model a lam ti) = activity_rest (evalR no_env_R a) T (Q2R ti).
+Theorem model_rest_decay_exact : forall a lam T ti, evalR ln2_env_R lam = decay_const T ->
+  evalR ln2_env_R (rest_model a lam ti) = activity_rest (evalR ln2_env_R a) T (Q2R ti).
 Proof.
   intros a lam T ti Hl. unfold rest_model, activity_rest, eexp_neg, Rpower. cbn [evalR c]. rewrite Hl.
   unfold decay_const. f_equal. f_equal. unfold Rdiv. ring.
 Qed.
 Theorem spec_rest_decay_exact : forall s T ti,
-  evalR no_env_R (rest_spec s T ti) = activity_rest (evalR no_env_R s) (Q2R T) (Q2R ti) \/ Q2R T = 0.
+  evalR ln2_env_R (rest_spec s T ti) = activity_rest (evalR ln2_env_R s) (Q2R T) (Q2R ti) \/ Q2R T = 0.
 Proof.
   intros s T ti. destruct (Req_dec (Q2R T) 0) as [E|E]; [right; assumption|left].
   unfold rest_spec, activity_rest, eexp_neg, Rpower. cbn [evalR c]. rewrite evalR_LN2.
